@@ -1,4 +1,6 @@
 """C19 - standard-library summaries and flat format faithfully project the Stack."""
+from hypothesis import strategies as st
+
 from vlib import treestrat as T
 from vlib.wk.treepool import pool_filename
 from vlib.driver import Outcome, run_shards
@@ -121,6 +123,8 @@ def check_tree(ws, interps, tree, out):
         if v:
             viols.append({"desc": "%s on %s" % (v, interp), "interp": interp})
     cl = T.tree_classes(tree)
+    if tree.get("tblimit") is not None:
+        cl.add("sys.tracebacklimit=%d" % tree["tblimit"])
     nontrivial = bool(cl & {"hidden_frame_inside_context", "hidden_context", "exiting_last_context"})
     out.note_case(tree, nontrivial, classes=sorted(cl), n_eval=8 * len(interps))
     return viols
@@ -167,7 +171,9 @@ def shard(arg):
             v = fail["violations"][0]
             out.violation(v["desc"], fail["case"], v["interp"], flaky=fail["flaky"])
             return out
-        fail = hyp_search(T.trees(), lambda t: check_tree(ws, interps, t, out), seed=arg["seed"], max_examples=arg["n"],
+        with_limit = st.tuples(T.trees(), st.sampled_from([None, None, None, 0, 1, 2])).map(
+            lambda p: dict(p[0], tblimit=p[1]) if p[1] is not None else p[0])
+        fail = hyp_search(with_limit, lambda t: check_tree(ws, interps, t, out), seed=arg["seed"], max_examples=arg["n"],
                           shrink=arg["shrink"])
         if fail:
             v = fail["violations"][0]
